@@ -17,7 +17,57 @@ def content(n, seed):
     return bytes(r.randrange(256) for _ in range(n))
 
 
+def multi(payload):
+    res = []
+    for k, c in enumerate(payload["cases"]):
+        ffi = cffi.FFI()
+        try:
+            ffi.cdef(payload["prelude"])
+            ffi.cdef(c["cdef"])
+            ffi.cdef("unsigned long long m_get(int, void *); void m_set(int, void *, unsigned long long); "
+                     "int m_sizeof(int);")
+            lib = ffi.dlopen(payload["so"])
+            p = ffi.new(c["T"] + " *")
+            size = ffi.sizeof(c["T"])
+        except Exception as e:
+            res.append(dict(error=type(e).__name__))
+            continue
+        buf = ffi.buffer(p, size)
+        r = dict(size=size, csize=lib.m_sizeof(k), trials=[])
+        names = c["fields"]
+
+        def reads():
+            out = []
+            for n in names:
+                try:
+                    out.append(str(int(getattr(p, n))))
+                except Exception as e:
+                    out.append("EXC:" + type(e).__name__)
+            return out
+        if r["size"] == r["csize"]:
+            for t in c["trials"]:
+                before = content(size, t["seed"])
+                buf[:] = before
+                tr = dict(before=before.hex(), ok=False, exc=None, reads_before=reads())
+                try:
+                    setattr(p, names[t["wi"]], int(t["v"]))
+                    tr["ok"] = True
+                except Exception as e:
+                    tr["exc"] = type(e).__name__
+                tr["after"] = bytes(buf).hex()
+                tr["reads_after"] = reads()
+                tr["creads_after"] = [str(int(lib.m_get(k * 64 + i, p))) for i in range(len(names))]
+                buf[:] = before
+                lib.m_set(k * 64 + t["wi"], p, int(t["v"]) & 0xFFFFFFFFFFFFFFFF)
+                tr["cafter"] = bytes(buf).hex()
+                r["trials"].append(tr)
+        res.append(r)
+    return dict(cases=res)
+
+
 def main(payload):
+    if payload.get("op") == "multi":
+        return multi(payload)
     ffi = cffi.FFI()
     ffi.cdef(payload["cdef"])
     ffi.cdef("unsigned long long bf_get(int, void *); void bf_set(int, void *, unsigned long long); int bf_sizeof(int);")
